@@ -24,6 +24,7 @@ ASSUMPTIONS = [
     "wait_for_ecu's 10 s limit is modelled in half seconds (sleep 0.5 s, ping timeout 0.5 s; boundary ties go to the cancellation, as asyncio does); a ping that is answered with ResponsePending frames followed by silence is not generated",
     "set_session_pre / set_session_post hooks of OEM subclasses are represented by the list of requests they send (send_raw, reply ignored, client exceptions propagate); the base-class hooks send nothing",
     "connection loss (ConnectionError) during a scan is outside (C08)",
+    "free-form positive answers to probes (response id only / a record not repeating the probe) are given to services outside the ISO services whose positive response has mandatory structured parameters; a positive reply that violates such a layout (MalformedResponse in the client) is not generated",
 ]
 
 NEG_MEANINGFUL = [0x22, 0x33, 0x31, 0x12, 0x7E, 0x10, 0x24, 0x72]
@@ -1521,7 +1522,9 @@ MANIFEST = {
                    "re-entry loop, --reset with ECUReset + wait_for_ecu, ECU.set_session with its pre/post hooks, leave_session, the client's "
                    "retry / busyRepeatRequest / ResponsePending loop underneath), for every ECU given as a step function. For any ECU with a "
                    "request log: only probes of selected ids and session maintenance are ever sent (also in runs that are given up or die), "
-                   "every selected id is probed, skipped ids and wholly skipped sessions are never requested, the number of requests is bounded. "
+                   "every selected id is probed, skipped ids and wholly skipped sessions are never requested, the number of requests is bounded; "
+                   "a skip entry with an empty id list (`S:` / {S: []}) leaves nothing out: the session stays requested, every id stays selected and "
+                   "it is reported completely (empty_skip_list_skips_nothing, empty_skip_list_scanned_completely). "
                    "For session-determined ECUs obeying the ISO default rule: reported <=> selected, implemented in the claimed session and "
                    "answering a probe meaningfully (sound for every configuration, exact when the read-back is honest), --reset does not change "
                    "the reported set, identifier counters equal the number of positive identifiers per entered session. For ECUs that lose the "
@@ -1531,7 +1534,11 @@ MANIFEST = {
                    "Tied to the code per single transmission: the real scanners run on a real ECU client over wire-level ECUs (table ECUs with "
                    "session drops, refused / faked re-entry, ResponsePending, busyRepeatRequest, reset / boot variants, hooks; wild ECUs; the real "
                    "RandomUDSServer); the model must put the same transmissions on the wire in the same order and report the same result; the "
-                   "property is evaluated on the ECUs' ground truth; metamorphic pairs (reset, check-session, ResponsePending on/off)."),
+                   "property is evaluated on the ECUs' ground truth; metamorphic pairs (reset, check-session, ResponsePending on/off). Skip maps are "
+                   "given as maps and as CLI text through the real Ranges2D field type (bare sessions, id lists / ranges, entries with an empty id "
+                   "list, entries for sessions not requested) against an independent reading of the expression; every requested session not named as "
+                   "a whole must be entered and (identifier scan, conformant ECU) have every not-named identifier requested. Table ECUs draw ISO-named "
+                   "services and services answering the all-zero probes positively without repeating the probe's bytes (response id only / a record)."),
     "level_note": ("Trusted: Lean kernel, the harness (wire transport, exchange recorder around ECU._request, table ECU generator), the real "
                    "UDSClient's matcher as the classifier of final messages (C03). Literal limits (retries, max_retry per call site, MAX_N_PENDING, "
                    "wait_for_ecu durations, leave_session levels) are regenerated from the AST and tied by limits_agree. Outside: database-assisted "
